@@ -21,6 +21,10 @@ Streams (all end in the same judgement):
                            of another type Python's == cannot tell from it, through every entry point
   directed:value-lattice   ENUMERATED: a value lattice over scalar / AllOf / AnyOf / OneOf / NotField fields, alone and as
                            items of typed containers
+  directed:multi-instance  histories over SEVERAL instances of one class: an event on a sibling instance (deepcopy, pickle, clone,
+                           trusted construction / assignment / deserialization, rejected assignments / construction, ==/str/
+                           hash), then the value lattice on another instance (Field objects are shared between instances);
+                           random histories also start with such events with probability 0.4
   directed:nonatomic-base  calls on which the base type's own method is not failure-atomic (list.sort with a comparison
                            that fails after moves; extend / update from an iterator that fails after valid items)
   directed:field-classes   EVERY exported Field class: assignment of a rejected value over an accepted one
@@ -544,6 +548,7 @@ class History:
         self.py_findings = []       # (step index, key, what)
         self.cut = False
         self.origin = "ctor"        # how the starting instance was obtained from the constructed one
+        self.siblings = []          # events on OTHER instances of the class before the first operation
         self.keep = None
 
 
@@ -621,6 +626,40 @@ def gen_op(rnd, x, fields, ctx, tables, allow_nested=True, safe_only=False):
     return {"op": "del", "name": rnd.choice(names)}
 
 
+# ------------------------------------------------------------------ other instances of the same class
+# Field objects are shared by all instances of a class: whatever an operation on ONE instance leaves behind in a
+# Field (caches, scratch structures, flags) is seen by every later operation on every OTHER instance.  A history may
+# therefore start with events on sibling instances (C = the class, KW = the start keyword arguments); the same source
+# text is executed by the harness and printed in the replay.
+SIBLING_EVENTS = {
+    "deepcopy": "import copy\ny = C(**KW)\nz = copy.deepcopy(y)\n",
+    "pickle": "import pickle\ny = C(**KW)\nz = pickle.loads(pickle.dumps(y))\n",
+    "clone": "y = C(**KW)\nz = y.shallow_clone_with_overrides()\n",
+    "trusted-construct": "z = C.from_trusted_data(None, **KW)\n",
+    "trusted-assign": "z = C.from_trusted_data(None, **KW)\nfor k, v in list(KW.items()):\n    try:\n        setattr(z, k, v)\n"
+                      "    except Exception:\n        pass\n",
+    "serialize-roundtrip": "from typedpy import Serializer, Deserializer\ny = C(**KW)\nd = Serializer(y).serialize()\n"
+                           "z = Deserializer(C).deserialize(d)\n",
+    "trusted-deserialize": "from typedpy import Serializer, Deserializer\ny = C(**KW)\nd = Serializer(y).serialize()\n"
+                           "z = Deserializer(C).deserialize(d, direct_trusted_mapping=True)\n",
+    "failed-assignments": "y = C(**KW)\nfor k in list(KW):\n    for bad in (object(), None, 'high', -10 ** 9, [[]], {1: 2}):\n        try:\n"
+                          "            setattr(y, k, bad)\n        except Exception:\n            pass\n",
+    "failed-construct": "for k in list(KW):\n    try:\n        C(**dict(KW, **{k: object()}))\n    except Exception:\n        pass\n",
+    "compare-print-hash": "y = C(**KW)\ny == C(**KW)\nstr(y)\ntry:\n    hash(y)\nexcept Exception:\n    pass\n",
+    "skip-validation-copy": "import copy\ny = C(**KW)\nz = copy.copy(y)\nw = copy.deepcopy([y, {'k': y}])\n",
+}
+SIBLING_ORDER = sorted(SIBLING_EVENTS)
+
+
+def run_sibling_events(events, cls, kwargs, ctx):
+    for ev in events:
+        ns = {"C": cls, "KW": S.realize_kwargs([(k, v) for k, v in kwargs], ctx)}
+        try:
+            exec(SIBLING_EVENTS[ev], ns)
+        except Exception:  # noqa  the event itself is not judged here (other properties do); its traces are
+            pass
+
+
 def closing_ops(rnd, x, fields, ctx, tables):
     state = dict(public_attrs(x))
     out = []
@@ -649,7 +688,7 @@ def closing_ops(rnd, x, fields, ctx, tables):
     return out
 
 
-def run_history(rnd, cast, ctx, tables, nops, mode, ops=None, kwargs=None, safe_only=False, origin=None):
+def run_history(rnd, cast, ctx, tables, nops, mode, ops=None, kwargs=None, safe_only=False, origin=None, siblings=None):
     """Generates (or, when ops is given, replays) a history on a fresh valid instance."""
     cls = ctx.classes[cast["name"]]
     fields = ctx.all_fields(cast["name"])
@@ -678,6 +717,13 @@ def run_history(rnd, cast, ctx, tables, nops, mode, ops=None, kwargs=None, safe_
         except Exception:  # noqa
             origin = "ctor"
     h.origin = origin
+    if siblings is None:
+        siblings = []
+        if rnd is not None and ops is None and rnd.random() < 0.4:
+            siblings = [rnd.choice(SIBLING_ORDER) for _ in range(rnd.randint(1, 2))]
+    h.siblings = list(siblings)
+    if h.siblings:
+        run_sibling_events(h.siblings, cls, kwargs, ctx)
     h.init = reify_state(x)
     handles = {} if mode == "reuse" else None
     i = 0
@@ -1737,6 +1783,43 @@ def directed_lattice(ctx, tables, rep):
     return hs
 
 
+MI_LATTICE = [("int", 1), ("int", 12), ("int", -1), ("flt", 5, -1), ("str", "x"), ("none",), ("bool", True), ("list", [("int", 12)])]
+
+
+def directed_multi_instance(ctx, tables, rep):
+    """Histories over SEVERAL instances of one class: one event on a sibling instance (deepcopy, pickle, clone,
+    trusted construction / assignment / deserialization, rejected assignments, rejected construction, comparison and
+    printing), then -- on another instance -- the whole value lattice assigned to every field (scalars, AllOf / AnyOf /
+    OneOf / NotField, typed containers of them) and pushed through the container mutators, in ONE history per event.
+    One class per event (a copy of the lattice class), so that whatever the event leaves behind in the class's Field
+    objects is attributed to it and does not reach the other streams."""
+    base_cast, start = lattice_class()
+    hs = []
+    for ev in SIBLING_ORDER:
+        cname = "WS_" + "".join(ch if ch.isalnum() else "_" for ch in ev)
+        if cname not in ctx.classes and not add_class(ctx, dict(base_cast, name=cname, fields=[dict(fd) for fd in base_cast["fields"]])):
+            continue
+        cast = ctx.ast(cname)
+        ops = []
+        for name, v in start:
+            f = field_cast(cast["fields"], name)
+            kind = kind_of(f)
+            for y in MI_LATTICE:
+                ops.append({"op": "set", "name": name, "value": y})
+                if kind in ("list", "deque"):
+                    ops.append({"op": "call", "name": name, "kind": kind, "method": "append", "args": [y]})
+                    ops.append({"op": "call", "name": name, "kind": kind, "method": "__setitem__", "args": [("int", 0), y]})
+                if kind == "dict" and G.is_hashable(y):
+                    ops.append({"op": "call", "name": name, "kind": "dict", "method": "__setitem__", "args": [("str", "k"), y]})
+                    ops.append({"op": "call", "name": name, "kind": "dict", "method": "update", "args": [("dict", [(("str", "n"), y)])]})
+        for origin in ("ctor", "deepcopy"):
+            h = run_history(None, cast, ctx, tables, len(ops), "reread", ops=ops, kwargs=start, origin=origin, siblings=[ev])
+            if h is not None and h.steps:
+                rep.count("directed:multi-instance", 0, (ev, origin, len(h.steps)))
+                hs.append(h)
+    return hs
+
+
 def nonatomic_casts():
     I = {"t": "num", "k": "Integer", "s": "Any"}
     Sx = {"t": "str"}
@@ -1858,14 +1941,41 @@ def replay_obj(h, upto, ctx):
              "x = %s(%s)" % (h.cast["name"], ", ".join("%s=%s" % (k, G.py_src(v)) for k, v in h.kwargs))]
     if h.origin != "ctor":
         lines.append(ORIGIN_SRC[h.origin])
+    if h.siblings:
+        lines.append("# events on other instances of the same class (Field objects are shared between instances)")
+        lines.append("C = %s\nKW = dict(%s)" % (h.cast["name"], ", ".join("%s=%s" % (k, G.py_src(v)) for k, v in h.kwargs)))
+        for ev in h.siblings:
+            lines.append("try:\n" + "".join("    " + l + "\n" for l in SIBLING_EVENTS[ev].splitlines()) +
+                         "except Exception as e:\n    print('sibling event %s:', type(e).__name__, e)" % ev)
     if h.mode == "reuse":
         lines.append("# handles obtained once and re-used: each x.<f> below refers to the object first read")
     for op in ops:
         lines.append("try:\n    %s\nexcept Exception as e:\n    print(type(e).__name__, e)" % op_src(op))
     lines.append("print(x)")
     return {"class": h.cast, "extra_classes": needed_classes(ctx, h.cast), "kwargs": h.kwargs, "ops": ops, "mode": h.mode,
-            "origin": h.origin,
+            "origin": h.origin, "siblings": h.siblings,
             "python": "\n".join(lines) + "\n"}
+
+
+def shrunk_replay(h, j, ctx, tables, done):
+    """Replay object for the finding at step j of h.  For a long enumerated history the failing operation is tried
+    alone (same start, same origin, same sibling events); if it does the same thing there -- same outcome, same
+    value of the field afterwards -- the one-operation history is the replay.  One attempt per finding key."""
+    if len(h.steps) > 6 and j < len(h.steps):
+        s = h.steps[j]
+        tag = (h.cast["name"], json.dumps(canon(s["op"]), sort_keys=True, default=str))
+        if tag not in done and len(done) < 40:
+            done.add(tag)
+            try:
+                h2 = run_history(None, h.cast, ctx, tables, 1, "reread", ops=[s["op"]], kwargs=h.kwargs, origin=h.origin,
+                                 siblings=h.siblings)
+                if h2 is not None and len(h2.steps) == 1 and h2.steps[0]["out"] == s["out"]:
+                    name = s["op"]["name"]
+                    if canon(dict(post_state_at(h2, 0)).get(name)) == canon(dict(post_state_at(h, j)).get(name)):
+                        return replay_obj(h2, 0, ctx)
+            except Exception:  # noqa
+                pass
+    return replay_obj(h, j, ctx)
 
 
 def needed_classes(ctx, cast):
@@ -1925,13 +2035,21 @@ def replay(obj):
         print("the class definition is rejected now")
         return 2
     h = run_history(None, obj["class"], ctx, tables, len(obj["ops"]), obj.get("mode", "reread"),
-                    ops=obj["ops"], kwargs=[tuple(kv) for kv in obj["kwargs"]], origin=obj.get("origin", "ctor"))
+                    ops=obj["ops"], kwargs=[tuple(kv) for kv in obj["kwargs"]], origin=obj.get("origin", "ctor"),
+                    siblings=obj.get("siblings") or [])
     if h is None:
         print("the start instance cannot be built now")
         return 2
     print(S.class_src(obj["class"]))
     print("start    :", ", ".join("%s=%s" % (k, G.py_src(v)) for k, v in h.init))
-    cls = ctx.classes[obj["class"]["name"]]
+    # validity of a state is judged by constructing it with a FRESH copy of the class (new Field objects): the
+    # history may have left the replayed class's own Field objects in a state in which they validate nothing
+    jctx = S.Context()
+    for c in obj.get("extra_classes", []):
+        add_class(jctx, c)
+    add_class(jctx, obj["class"])
+    cls = jctx.classes[obj["class"]["name"]]
+    ctx = jctx
     state = h.init
     bad = 0
     for i, s in enumerate(h.steps):
@@ -2002,6 +2120,7 @@ def run(rep, tier):
                                     "unsafe_now": ["%s.%s/%s" % u for u in unsafe_now]}
 
     all_histories = []          # (stream, History)
+    done_shrinks = set()
     import time as _time
     timing = rep.cov.setdefault("timing_s", {})
     _t = [_time.time()]
@@ -2023,6 +2142,9 @@ def run(rep, tier):
     for h in directed_lattice(ctx, tables, rep):
         all_histories.append(("directed:value-lattice", h))
     lap("directed:value-lattice")
+    for h in directed_multi_instance(ctx, tables, rep):
+        all_histories.append(("directed:multi-instance", h))
+    lap("directed:multi-instance")
     by_entry = {}
     for _, h in all_histories:
         if h.py_findings and h.steps and h.steps[0]["op"]["op"] == "call":
@@ -2089,6 +2211,8 @@ def run(rep, tier):
                 rep.stat(stream, "outcome:" + outk)
                 rep.stat(stream, "mode:" + h.mode)
                 rep.stat(stream, "origin:" + h.origin)
+                for ev in h.siblings:
+                    rep.stat(stream, "sibling:" + ev)
     hs = [h for _, h in all_histories]
     if hs:
         h0 = [h for s, h in all_histories if s == "history"][:2]
@@ -2149,7 +2273,7 @@ def run(rep, tier):
             for j, key, what in h.py_findings:
                 if first_coq is not None and j > first_coq:
                     continue      # the instance was already invalid: later steps are not judged
-                rep.finding(key, what, replay_obj(h, j, ctx))
+                rep.finding(key, what, shrunk_replay(h, j, ctx, tables, done_shrinks))
         nsp = sum(1 for hi in r["spec_bad"] if hi not in start_bad)
         rep.obligation("spec-on-observed:validity-and-atomicity", True,
                        "%d histories, %d steps; %d histories with a failing step (reported above as findings)" % (len(hs), nsteps, nsp))
@@ -2184,7 +2308,7 @@ def run(rep, tier):
         # no Coq verdicts: still report what Python alone established
         for h in hs:
             for j, key, what in h.py_findings:
-                rep.finding(key, what, replay_obj(h, j, ctx))
+                rep.finding(key, what, shrunk_replay(h, j, ctx, tables, done_shrinks))
     # every entry that is unsafe now must have produced its concrete input (matched against known findings)
     if not proofs_ok:
         from harness.props.c17 import broken_build
